@@ -5,6 +5,7 @@ package main
 //   gosym -dir /repo -pkg ./constraint/tinyfield -harness h1.go[,h2.go] [-entry name] -out res.json
 
 import (
+	"math/big"
 	"encoding/json"
 	"flag"
 	"fmt"
@@ -281,7 +282,7 @@ func runHarness(prog *ssa.Program, s *Solver, cfg *Config, entry *ssa.Function) 
 	ex := &Explorer{}
 	reach := map[string]bool{}
 	for {
-		in := &Interp{prog: prog, s: s, ex: ex, cfg: cfg, globals: map[*ssa.Global]*Obj{}, reach: map[string]bool{}, once: map[string]bool{}, invMemo: map[string]*Term{}, bigVals: map[*Obj]*Term{}, bigField: map[*Obj]*Term{}, memoTerms: map[string][]*Term{}, transcripts: map[*Obj]string{},
+		in := &Interp{prog: prog, s: s, ex: ex, cfg: cfg, globals: map[*ssa.Global]*Obj{}, reach: map[string]bool{}, once: map[string]bool{}, invMemo: map[string]*Term{}, bigVals: map[*Obj]*Term{}, bigField: map[*Obj]*Term{}, bigConc: map[*Obj]*big.Int{}, bigOpaque: map[*Obj]bool{}, memoTerms: map[string][]*Term{}, transcripts: map[*Obj]string{},
 			encoded: map[string]int{}, stubs: map[string]int{}, initDone: map[*ssa.Package]bool{}}
 		ex.pos = 0
 		in.noSummary = strings.Contains(entry.Name(), "_nosummary_")
